@@ -4,6 +4,8 @@ import (
 	"fmt"
 	"math/big"
 	"math/bits"
+	"sync"
+	"testing"
 
 	"git.metabarcoding.org/obitools/obitools4/obitools4/pkg/obifp"
 
@@ -98,25 +100,25 @@ type judge struct {
 }
 
 // exact: an operation without overflow contract must return want (0 <= want < 2^256).
-func (j judge) exact(op string, got val, o outcome, want *big.Int) error {
+func (j judge) exact(got val, o outcome, want *big.Int, opf string, args ...any) error {
 	if o.panicked {
-		return fmt.Errorf("%s(%v).%s panicked (%s); exact result is 0x%s", j.name, j.c.A, op, o.msg, want.Text(16))
+		return fmt.Errorf("%s(%v).%s panicked (%s); exact result is 0x%s", j.name, j.c.A, fmt.Sprintf(opf, args...), o.msg, want.Text(16))
 	}
 	if got != valOf(want) {
-		return fmt.Errorf("%s(%v).%s = %v; exact result is 0x%s", j.name, j.c.A, op, got, want.Text(16))
+		return fmt.Errorf("%s(%v).%s = %v; exact result is 0x%s", j.name, j.c.A, fmt.Sprintf(opf, args...), got, want.Text(16))
 	}
 	return nil
 }
 
 // contract: Add/Sub/Mul family.  The exact result must be returned when it lies in
 // [0, 2^width); otherwise, and only then, the operation must panic.
-func (j judge) contract(op string, got val, o outcome, exact *big.Int) error {
+func (j judge) contract(got val, o outcome, exact *big.Int, opf string, args ...any) error {
 	if exact.Sign() >= 0 && exact.Cmp(j.M) < 0 {
 		if o.panicked {
-			return fmt.Errorf("%s(%v).%s signalled overflow (%s) although the exact result 0x%s fits %d bits", j.name, j.c.A, op, o.msg, exact.Text(16), j.c.W)
+			return fmt.Errorf("%s(%v).%s signalled overflow (%s) although the exact result 0x%s fits %d bits", j.name, j.c.A, fmt.Sprintf(opf, args...), o.msg, exact.Text(16), j.c.W)
 		}
 		if got != valOf(exact) {
-			return fmt.Errorf("%s(%v).%s = %v; exact result is 0x%s", j.name, j.c.A, op, got, exact.Text(16))
+			return fmt.Errorf("%s(%v).%s = %v; exact result is 0x%s", j.name, j.c.A, fmt.Sprintf(opf, args...), got, exact.Text(16))
 		}
 		return nil
 	}
@@ -126,29 +128,19 @@ func (j judge) contract(op string, got val, o outcome, exact *big.Int) error {
 		if exact.Sign() < 0 {
 			sign, x = "-", new(big.Int).Neg(exact)
 		}
-		return fmt.Errorf("%s(%v).%s = %v without signalling; the exact result %s0x%s does not fit %d bits", j.name, j.c.A, op, got, sign, x.Text(16), j.c.W)
+		return fmt.Errorf("%s(%v).%s = %v without signalling; the exact result %s0x%s does not fit %d bits", j.name, j.c.A, fmt.Sprintf(opf, args...), got, sign, x.Text(16), j.c.W)
 	}
 	return nil
 }
 
-func (j judge) same(op string, got, want any, o outcome) error {
+func (j judge) same(got, want any, o outcome, opf string, args ...any) error {
 	if o.panicked {
-		return fmt.Errorf("%s(%v).%s panicked (%s); expected %v", j.name, j.c.A, op, o.msg, want)
+		return fmt.Errorf("%s(%v).%s panicked (%s); expected %v", j.name, j.c.A, fmt.Sprintf(opf, args...), o.msg, want)
 	}
 	if got != want {
-		return fmt.Errorf("%s(%v).%s = %v; expected %v", j.name, j.c.A, op, got, want)
+		return fmt.Errorf("%s(%v).%s = %v; expected %v", j.name, j.c.A, fmt.Sprintf(opf, args...), got, want)
 	}
 	return nil
-}
-
-func sign(x int) int {
-	switch {
-	case x < 0:
-		return -1
-	case x > 0:
-		return 1
-	}
-	return 0
 }
 
 // ------------------------------------------------------------------ operations common to the three types
@@ -169,27 +161,27 @@ func checkGroup[T fullUint[T]](group string, c opCase) error {
 		o = try(func() { r = a.LeftShift(c.N) })
 		want := new(big.Int).Lsh(A, c.N)
 		want.Mod(want, j.M)
-		if err := j.exact(fmt.Sprintf("LeftShift(%d)", c.N), limbs(r), o, want); err != nil {
+		if err := j.exact(limbs(r), o, want, "LeftShift(%d)", c.N); err != nil {
 			return err
 		}
 		o = try(func() { r = a.RightShift(c.N) })
-		if err := j.exact(fmt.Sprintf("RightShift(%d)", c.N), limbs(r), o, new(big.Int).Rsh(A, c.N)); err != nil {
+		if err := j.exact(limbs(r), o, new(big.Int).Rsh(A, c.N), "RightShift(%d)", c.N); err != nil {
 			return err
 		}
 
 	case "addsub":
 		o = try(func() { r = a.Add(b) })
-		if err := j.contract(fmt.Sprintf("Add(%v)", c.B), limbs(r), o, new(big.Int).Add(A, B)); err != nil {
+		if err := j.contract(limbs(r), o, new(big.Int).Add(A, B), "Add(%v)", c.B); err != nil {
 			return err
 		}
 		o = try(func() { r = a.Sub(b) })
-		if err := j.contract(fmt.Sprintf("Sub(%v)", c.B), limbs(r), o, new(big.Int).Sub(A, B)); err != nil {
+		if err := j.contract(limbs(r), o, new(big.Int).Sub(A, B), "Sub(%v)", c.B); err != nil {
 			return err
 		}
 
 	case "mul":
 		o = try(func() { r = a.Mul(b) })
-		if err := j.contract(fmt.Sprintf("Mul(%v)", c.B), limbs(r), o, new(big.Int).Mul(A, B)); err != nil {
+		if err := j.contract(limbs(r), o, new(big.Int).Mul(A, B), "Mul(%v)", c.B); err != nil {
 			return err
 		}
 
@@ -198,7 +190,7 @@ func checkGroup[T fullUint[T]](group string, c opCase) error {
 		var gi int
 		var gb bool
 		o = try(func() { gi = a.Cmp(b) })
-		if err := j.same(fmt.Sprintf("Cmp(%v)", c.B), gi, want, o); err != nil {
+		if err := j.same(gi, want, o, "Cmp(%v)", c.B); err != nil {
 			return err
 		}
 		for _, m := range []struct {
@@ -213,45 +205,45 @@ func checkGroup[T fullUint[T]](group string, c opCase) error {
 			{"GreaterThanOrEqual", func() bool { return a.GreaterThanOrEqual(b) }, want >= 0},
 		} {
 			o = try(func() { gb = m.f() })
-			if err := j.same(fmt.Sprintf("%s(%v)", m.name, c.B), gb, m.want, o); err != nil {
+			if err := j.same(gb, m.want, o, "%s(%v)", m.name, c.B); err != nil {
 				return err
 			}
 		}
 
 	case "bits":
 		o = try(func() { r = a.And(b) })
-		if err := j.exact(fmt.Sprintf("And(%v)", c.B), limbs(r), o, new(big.Int).And(A, B)); err != nil {
+		if err := j.exact(limbs(r), o, new(big.Int).And(A, B), "And(%v)", c.B); err != nil {
 			return err
 		}
 		o = try(func() { r = a.Or(b) })
-		if err := j.exact(fmt.Sprintf("Or(%v)", c.B), limbs(r), o, new(big.Int).Or(A, B)); err != nil {
+		if err := j.exact(limbs(r), o, new(big.Int).Or(A, B), "Or(%v)", c.B); err != nil {
 			return err
 		}
 		o = try(func() { r = a.Xor(b) })
-		if err := j.exact(fmt.Sprintf("Xor(%v)", c.B), limbs(r), o, new(big.Int).Xor(A, B)); err != nil {
+		if err := j.exact(limbs(r), o, new(big.Int).Xor(A, B), "Xor(%v)", c.B); err != nil {
 			return err
 		}
 		o = try(func() { r = a.Not() })
 		not := new(big.Int).Sub(j.M, big.NewInt(1))
 		not.Sub(not, A)
-		if err := j.exact("Not()", limbs(r), o, not); err != nil {
+		if err := j.exact(limbs(r), o, not, "Not()"); err != nil {
 			return err
 		}
 		var z bool
 		o = try(func() { z = a.IsZero() })
-		if err := j.same("IsZero()", z, A.Sign() == 0, o); err != nil {
+		if err := j.same(z, A.Sign() == 0, o, "IsZero()"); err != nil {
 			return err
 		}
 		o = try(func() { r = a.Zero() })
-		if err := j.exact("Zero()", limbs(r), o, big.NewInt(0)); err != nil {
+		if err := j.exact(limbs(r), o, big.NewInt(0), "Zero()"); err != nil {
 			return err
 		}
 		o = try(func() { r = a.MaxValue() })
-		if err := j.exact("MaxValue()", limbs(r), o, new(big.Int).Sub(j.M, big.NewInt(1))); err != nil {
+		if err := j.exact(limbs(r), o, new(big.Int).Sub(j.M, big.NewInt(1)), "MaxValue()"); err != nil {
 			return err
 		}
 		o = try(func() { r = a.Set64(c.B[0]) })
-		if err := j.exact(fmt.Sprintf("Set64(%#x)", c.B[0]), limbs(r), o, u64big(c.B[0])); err != nil {
+		if err := j.exact(limbs(r), o, u64big(c.B[0]), "Set64(%#x)", c.B[0]); err != nil {
 			return err
 		}
 		// the generic constructors of unint.go
@@ -292,7 +284,7 @@ func checkGroup[T fullUint[T]](group string, c opCase) error {
 			return fmt.Errorf("%s(%v).Uint128() = %v; the value fits 128 bits and must be preserved", j.name, c.A, limbs(r128))
 		}
 		o = try(func() { r256 = a.Uint256() })
-		if err := j.exact("Uint256()", limbs(r256), o, A); err != nil {
+		if err := j.exact(limbs(r256), o, A, "Uint256()"); err != nil {
 			return err
 		}
 
@@ -393,18 +385,18 @@ func extra128(j judge, group string, a, b obifp.Uint128, A, B *big.Int) error {
 	switch group {
 	case "arith64":
 		o = try(func() { r = a.Add64(x) })
-		if err := j.contract(fmt.Sprintf("Add64(%#x)", x), limbs(r), o, new(big.Int).Add(A, X)); err != nil {
+		if err := j.contract(limbs(r), o, new(big.Int).Add(A, X), "Add64(%#x)", x); err != nil {
 			return err
 		}
 		o = try(func() { r = a.Mul64(x) })
-		if err := j.contract(fmt.Sprintf("Mul64(%#x)", x), limbs(r), o, new(big.Int).Mul(A, X)); err != nil {
+		if err := j.contract(limbs(r), o, new(big.Int).Mul(A, X), "Mul64(%#x)", x); err != nil {
 			return err
 		}
 
 	case "cmp":
 		var g int
 		o = try(func() { g = a.Cmp64(x) })
-		if err := j.same(fmt.Sprintf("Cmp64(%#x)", x), g, A.Cmp(X), o); err != nil {
+		if err := j.same(g, A.Cmp(X), o, "Cmp64(%#x)", x); err != nil {
 			return err
 		}
 
@@ -412,18 +404,18 @@ func extra128(j judge, group string, a, b obifp.Uint128, A, B *big.Int) error {
 		if B.Sign() != 0 {
 			wq, wr := new(big.Int).QuoRem(A, B, new(big.Int))
 			o = try(func() { q, r = a.QuoRem(b) })
-			if err := j.exact(fmt.Sprintf("QuoRem(%v) quotient", c.B), limbs(q), o, wq); err != nil {
+			if err := j.exact(limbs(q), o, wq, "QuoRem(%v) quotient", c.B); err != nil {
 				return err
 			}
-			if err := j.exact(fmt.Sprintf("QuoRem(%v) remainder", c.B), limbs(r), o, wr); err != nil {
+			if err := j.exact(limbs(r), o, wr, "QuoRem(%v) remainder", c.B); err != nil {
 				return err
 			}
 			o = try(func() { r = a.Div(b) })
-			if err := j.exact(fmt.Sprintf("Div(%v)", c.B), limbs(r), o, wq); err != nil {
+			if err := j.exact(limbs(r), o, wq, "Div(%v)", c.B); err != nil {
 				return err
 			}
 			o = try(func() { r = a.Mod(b) })
-			if err := j.exact(fmt.Sprintf("Mod(%v)", c.B), limbs(r), o, wr); err != nil {
+			if err := j.exact(limbs(r), o, wr, "Mod(%v)", c.B); err != nil {
 				return err
 			}
 		}
@@ -431,18 +423,18 @@ func extra128(j judge, group string, a, b obifp.Uint128, A, B *big.Int) error {
 			wq, wr := new(big.Int).QuoRem(A, X, new(big.Int))
 			var r64 uint64
 			o = try(func() { q, r64 = a.QuoRem64(x) })
-			if err := j.exact(fmt.Sprintf("QuoRem64(%#x) quotient", x), limbs(q), o, wq); err != nil {
+			if err := j.exact(limbs(q), o, wq, "QuoRem64(%#x) quotient", x); err != nil {
 				return err
 			}
-			if err := j.same(fmt.Sprintf("QuoRem64(%#x) remainder", x), r64, wr.Uint64(), o); err != nil {
+			if err := j.same(r64, wr.Uint64(), o, "QuoRem64(%#x) remainder", x); err != nil {
 				return err
 			}
 			o = try(func() { r = a.Div64(x) })
-			if err := j.exact(fmt.Sprintf("Div64(%#x)", x), limbs(r), o, wq); err != nil {
+			if err := j.exact(limbs(r), o, wq, "Div64(%#x)", x); err != nil {
 				return err
 			}
 			o = try(func() { r64 = a.Mod64(x) })
-			if err := j.same(fmt.Sprintf("Mod64(%#x)", x), r64, wr.Uint64(), o); err != nil {
+			if err := j.same(r64, wr.Uint64(), o, "Mod64(%#x)", x); err != nil {
 				return err
 			}
 		}
@@ -455,7 +447,7 @@ func extra256(j judge, group string, a, b obifp.Uint256, A, B *big.Int) error {
 	if group == "div" && B.Sign() != 0 {
 		var r obifp.Uint256
 		o := try(func() { r = a.Div(b) })
-		if err := j.exact(fmt.Sprintf("Div(%v)", c.B), limbs(r), o, new(big.Int).Quo(A, B)); err != nil {
+		if err := j.exact(limbs(r), o, new(big.Int).Quo(A, B), "Div(%v)", c.B); err != nil {
 			return err
 		}
 	}
@@ -810,17 +802,43 @@ func excludedShape(group string, c opCase) string {
 // tb is what evid.Fail needs.
 type tb = evid.TB
 
+// softTB turns the Fatalf of evid.Fail into a non-fatal error so that an
+// enumeration goes on with the other checks after the first failure of one check
+// (a shallow defect of one operation must not hide the others).
+type softTB struct{ t *testing.T }
+
+func (s softTB) Helper()                           { s.t.Helper() }
+func (s softTB) Logf(format string, args ...any)   { s.t.Logf(format, args...) }
+func (s softTB) Fatalf(format string, args ...any) { s.t.Errorf(format, args...) }
+
+// failedChecks holds the checks that already failed in this process (enumerations only).
+var failedChecks sync.Map
+
 // evaluate counts and runs one (group, case); it reports false when the caller
-// must stop generating (a failure was recorded, or an operation never returned).
+// must stop generating: an operation never returned (the spinning goroutine
+// cannot be killed).  In a rapid property a failure ends the run through Fatalf;
+// in an enumeration it is recorded and that check is not evaluated any more in
+// this process.
 func evaluate(t tb, group string, c opCase, extra ...string) bool {
+	if hung.Load() {
+		return false
+	}
 	if k := excludedShape(group, c); k != "" {
 		evid.Excluded(k, 1)
 		return true
 	}
 	name := checkName(c.W, group)
+	if _, failed := failedChecks.Load(name); failed {
+		return true
+	}
 	nt, cl := describe(group, c)
 	evid.Eval(name, c.key(), nt, c, append(cl, extra...)...)
 	if err := runCheck(group, c); err != nil {
+		if tt, ok := t.(*testing.T); ok {
+			failedChecks.Store(name, true)
+			evid.Fail(softTB{tt}, name, c, err)
+			return !hung.Load()
+		}
 		evid.Fail(t, name, c, err)
 		return false
 	}
